@@ -26,6 +26,7 @@ type OpRow struct {
 	Flags                              map[string]bool // halts jumps writes reverts returns
 	ConstGas                           ast.Expr
 	MakerArgs                          []int64 // constant arguments of a makePush/makeDup/… handler factory
+	MinStackVal, MaxStackVal           int64   // evaluated minStack/maxStack expressions; -1 when not evaluable
 	Superseded                         bool // a later row for the same opcode replaces it when all proposals are active
 }
 
@@ -45,7 +46,34 @@ func (c *Ctx) JumpTable() (rows []*OpRow, problems []string) {
 		n, ok := t.(*types.Named)
 		return ok && n.Obj().Name() == "JumpTable" && n.Obj().Pkg() == p.Types
 	}
-	fnOf := func(e ast.Expr) *ssa.Function {
+	// package-level `var gasX = f` / `= makeF(k)` aliases
+	varInit := map[types.Object]ast.Expr{}
+	for _, f := range p.Syntax {
+		for _, d := range f.Decls {
+			gd, ok := d.(*ast.GenDecl)
+			if !ok || gd.Tok != token.VAR {
+				continue
+			}
+			for _, sp := range gd.Specs {
+				vs := sp.(*ast.ValueSpec)
+				if len(vs.Values) == len(vs.Names) {
+					for i, nm := range vs.Names {
+						varInit[info.Defs[nm]] = vs.Values[i]
+					}
+				}
+			}
+		}
+	}
+	var fnOf func(e ast.Expr) *ssa.Function
+	fnOf = func(e ast.Expr) *ssa.Function {
+		if id, ok := e.(*ast.Ident); ok {
+			if v, ok := info.Uses[id].(*types.Var); ok {
+				if init, ok := varInit[v]; ok {
+					return fnOf(init)
+				}
+				return nil
+			}
+		}
 		// makeX(args…) returning a closure: the handler is the maker's single anonymous function
 		if call, ok := e.(*ast.CallExpr); ok {
 			if id, ok := call.Fun.(*ast.Ident); ok {
@@ -92,6 +120,88 @@ func (c *Ctx) JumpTable() (rows []*OpRow, problems []string) {
 		}
 		return a, b
 	}
+	// evalInt evaluates an integer expression built from constants, + - *,
+	// integer conversions and calls of single-return-statement functions of the
+	// vm package (minStack, maxDupStack, …).
+	funcDecl := map[*types.Func]*ast.FuncDecl{}
+	for _, f := range p.Syntax {
+		for _, d := range f.Decls {
+			if fd, ok := d.(*ast.FuncDecl); ok && fd.Recv == nil {
+				if o, ok := info.Defs[fd.Name].(*types.Func); ok {
+					funcDecl[o] = fd
+				}
+			}
+		}
+	}
+	var evalInt func(e ast.Expr, env map[types.Object]int64, depth int) (int64, bool)
+	evalInt = func(e ast.Expr, env map[types.Object]int64, depth int) (int64, bool) {
+		if depth > 6 {
+			return 0, false
+		}
+		if tv, ok := info.Types[e]; ok && tv.Value != nil {
+			v, ok := constant.Int64Val(constant.ToInt(tv.Value))
+			return v, ok
+		}
+		switch x := e.(type) {
+		case *ast.ParenExpr:
+			return evalInt(x.X, env, depth)
+		case *ast.Ident:
+			if v, ok := env[info.Uses[x]]; ok {
+				return v, true
+			}
+		case *ast.BinaryExpr:
+			a, ok1 := evalInt(x.X, env, depth)
+			b, ok2 := evalInt(x.Y, env, depth)
+			if !ok1 || !ok2 {
+				return 0, false
+			}
+			switch x.Op {
+			case token.ADD:
+				return a + b, true
+			case token.SUB:
+				return a - b, true
+			case token.MUL:
+				return a * b, true
+			}
+		case *ast.CallExpr:
+			if tv, ok := info.Types[x.Fun]; ok && tv.IsType() && len(x.Args) == 1 {
+				return evalInt(x.Args[0], env, depth)
+			}
+			id, ok := x.Fun.(*ast.Ident)
+			if !ok {
+				return 0, false
+			}
+			fo, ok := info.Uses[id].(*types.Func)
+			if !ok {
+				return 0, false
+			}
+			fd := funcDecl[fo]
+			if fd == nil || fd.Body == nil || len(fd.Body.List) != 1 {
+				return 0, false
+			}
+			ret, ok := fd.Body.List[0].(*ast.ReturnStmt)
+			if !ok || len(ret.Results) != 1 {
+				return 0, false
+			}
+			nenv := map[types.Object]int64{}
+			i := 0
+			for _, fl := range fd.Type.Params.List {
+				for _, nm := range fl.Names {
+					if i >= len(x.Args) {
+						return 0, false
+					}
+					v, ok := evalInt(x.Args[i], env, depth+1)
+					if !ok {
+						return 0, false
+					}
+					nenv[info.Defs[nm]] = v
+					i++
+				}
+			}
+			return evalInt(ret.Results[0], nenv, depth+1)
+		}
+		return 0, false
+	}
 	applyField := func(r *OpRow, field string, val ast.Expr, where string) {
 		switch field {
 		case "execute":
@@ -112,8 +222,18 @@ func (c *Ctx) JumpTable() (rows []*OpRow, problems []string) {
 			r.MemSize = fnOf(val)
 		case "minStack":
 			r.MinPops, r.MinPush = stackArgs(val, "minStack")
+			if v, ok := evalInt(val, nil, 0); ok {
+				r.MinStackVal = v
+			} else {
+				problems = append(problems, where+": minStack of "+r.Name+" is not statically evaluable")
+			}
 		case "maxStack":
 			r.MaxPops, r.MaxPush = stackArgs(val, "maxStack")
+			if v, ok := evalInt(val, nil, 0); ok {
+				r.MaxStackVal = v
+			} else {
+				problems = append(problems, where+": maxStack of "+r.Name+" is not statically evaluable")
+			}
 		case "constantGas":
 			r.ConstGas = val
 		case "halts", "jumps", "writes", "reverts", "returns":
@@ -131,7 +251,7 @@ func (c *Ctx) JumpTable() (rows []*OpRow, problems []string) {
 			problems = append(problems, where+": row key is not an opcode constant: "+types.ExprString(key))
 			return nil
 		}
-		r := &OpRow{Name: name, Code: code, Where: where, Pos: lit.Pos(), Flags: map[string]bool{}, MinPops: -1, MinPush: -1, MaxPops: -1, MaxPush: -1}
+		r := &OpRow{Name: name, Code: code, Where: where, Pos: lit.Pos(), Flags: map[string]bool{}, MinPops: -1, MinPush: -1, MaxPops: -1, MaxPush: -1, MinStackVal: -1, MaxStackVal: -1}
 		for _, el := range lit.Elts {
 			kv, ok := el.(*ast.KeyValueExpr)
 			if !ok {
